@@ -723,3 +723,300 @@ Proof.
   assert (E : forall x, neg * s * (x - m) == s * (neg * x - neg * m)) by (intros; ring).
   rewrite !E. rewrite Qmult_le_l by exact Hs. split; intros H; lra.
 Qed.
+
+(* ------------------------------------------------------------------ raw values behind the scaled values *)
+Lemma fold_Qminb_le : forall r a, fold_left Qminb r a <= a /\ forall x, In x r -> fold_left Qminb r a <= x.
+Proof.
+  induction r as [|y r IH]; intros a; simpl; [split; [apply Qle_refl|intros x []]|].
+  destruct (IH (Qminb a y)) as [I1 I2]. split.
+  - eapply Qle_trans; [exact I1|apply Qminb_le_l].
+  - intros x [->|Hx]; [eapply Qle_trans; [exact I1|apply Qminb_le_r]|apply I2; exact Hx].
+Qed.
+Lemma fold_Qminb_In : forall r a, fold_left Qminb r a = a \/ In (fold_left Qminb r a) r.
+Proof.
+  induction r as [|y r IH]; intros a; simpl; [left; reflexivity|].
+  destruct (IH (Qminb a y)) as [I|I]; [|right; right; exact I].
+  rewrite I. destruct (Qminb_cases a y) as [-> | ->]; [left; reflexivity|right; left; reflexivity].
+Qed.
+Lemma fold_Qmaxb_ge : forall r a, a <= fold_left Qmaxb r a /\ forall x, In x r -> x <= fold_left Qmaxb r a.
+Proof.
+  induction r as [|y r IH]; intros a; simpl; [split; [apply Qle_refl|intros x []]|].
+  destruct (IH (Qmaxb a y)) as [I1 I2]. split.
+  - eapply Qle_trans; [apply Qmaxb_ge_l|exact I1].
+  - intros x [->|Hx]; [eapply Qle_trans; [apply Qmaxb_ge_r|exact I1]|apply I2; exact Hx].
+Qed.
+Lemma fold_Qmaxb_In : forall r a, fold_left Qmaxb r a = a \/ In (fold_left Qmaxb r a) r.
+Proof.
+  induction r as [|y r IH]; intros a; simpl; [left; reflexivity|].
+  destruct (IH (Qmaxb a y)) as [I|I]; [|right; right; exact I].
+  rewrite I. destruct (Qmaxb_cases a y) as [-> | ->]; [left; reflexivity|right; left; reflexivity].
+Qed.
+
+Lemma lmin_le l x : In x l -> lmin l <= x.
+Proof.
+  destruct l as [|a r]; [intros []|]. unfold lmin. destruct (fold_Qminb_le r a) as [I1 I2].
+  intros [->|Hx]; [exact I1|apply I2; exact Hx].
+Qed.
+Lemma lmin_In l : l <> [] -> In (lmin l) l.
+Proof.
+  destruct l as [|a r]; [congruence|intros _]. unfold lmin.
+  destruct (fold_Qminb_In r a) as [-> |I]; [left; reflexivity|right; exact I].
+Qed.
+Lemma lmax_ge l x : In x l -> x <= lmax l.
+Proof.
+  destruct l as [|a r]; [intros []|]. unfold lmax. destruct (fold_Qmaxb_ge r a) as [I1 I2].
+  intros [->|Hx]; [exact I1|apply I2; exact Hx].
+Qed.
+Lemma lmax_In l : l <> [] -> In (lmax l) l.
+Proof.
+  destruct l as [|a r]; [congruence|intros _]. unfold lmax.
+  destruct (fold_Qmaxb_In r a) as [-> |I]; [left; reflexivity|right; exact I].
+Qed.
+
+(* the successful raw values are exactly the entries of the non-failure selection *)
+Lemma In_select_success : forall (fails : list bool) (vals : list Q) x,
+  In x (select (map negb fails) vals) <->
+  exists t, (t < length vals)%nat /\ nth t fails true = false /\ nth t vals 0 = x.
+Proof.
+  induction fails as [|f fails IH]; intros vals x; cbn [map select].
+  - split; [intros []|]. intros (t & _ & H & _). destruct t; discriminate.
+  - destruct vals as [|v vals]; [split; [intros []|intros (t & H & _); simpl in H; lia]|].
+    destruct f; cbn [negb].
+    + rewrite IH. split.
+      * intros (t & H1 & H2 & H3). exists (S t). cbn [length nth]. split; [lia|]. split; assumption.
+      * intros ([|t] & H1 & H2 & H3); cbn [length nth] in *; [discriminate|]. exists t. split; [lia|]. split; assumption.
+    + cbn [In]. rewrite IH. split.
+      * intros [->|(t & H1 & H2 & H3)]; [exists O; cbn [length nth]; split; [lia|split; reflexivity]|].
+        exists (S t). cbn [length nth]. split; [lia|]. split; assumption.
+      * intros ([|t] & H1 & H2 & H3); cbn [length nth] in *; [left; exact H3|]. right. exists t. split; [lia|]. split; assumption.
+Qed.
+
+Lemma nth_map_combine {A B C} (f : A * B -> C) (da : A) (db : B) (dc : C) : forall (a : list A) (b : list B) t,
+  length b = length a -> (t < length a)%nat -> nth t (map f (combine a b)) dc = f (nth t a da, nth t b db).
+Proof.
+  intros a b t Hl Ht.
+  rewrite nth_indep with (d' := f (da, db)) by (rewrite map_length, combine_length; lia).
+  rewrite (map_nth f). rewrite combine_nth by (symmetry; exact Hl). reflexivity.
+Qed.
+
+(* the raw value that stands behind scaled value t: the observation's own raw value for a success, the lie (= the worst
+   successful raw value) for a failure *)
+Definition raw_behind (maximize : bool) (vals : list Q) (fails : list bool) (t : nat) : Q :=
+  if nth t fails false
+  then (if maximize then lmin (select (map negb fails) vals) else lmax (select (map negb fails) vals))
+  else nth t vals 0.
+
+(* order of the scaled values = order of the objective on the raw values behind them *)
+Lemma scaled_le_iff (maximize : bool) vals fails t u :
+  length fails = length vals -> select (map negb fails) vals <> [] ->
+  (t < length vals)%nat -> (u < length vals)%nat ->
+  (nth t (scaled_values maximize vals fails) 0 <= nth u (scaled_values maximize vals fails) 0 <->
+   if maximize then raw_behind maximize vals fails u <= raw_behind maximize vals fails t
+   else raw_behind maximize vals fails t <= raw_behind maximize vals fails u).
+Proof.
+  intros Hl Hne Ht Hu.
+  destruct (scaled_values_affine maximize vals fails Hne) as (s & m & lie & Hs & Hlie & E).
+  rewrite E. rewrite !(nth_map_combine _ 0 false 0) by assumption. cbn [fst snd].
+  fold (raw_behind maximize vals fails). unfold raw_behind. rewrite <- Hlie.
+  set (wt := if nth t fails false then lie else nth t vals 0).
+  set (wu := if nth u fails false then lie else nth u vals 0).
+  destruct maximize.
+  - rewrite (affine_order (Qopp 1) s m wt wu Hs (or_intror (Qeq_refl _))). split; intros H; lra.
+  - rewrite (affine_order 1 s m wt wu Hs (or_introl (Qeq_refl _))). split; intros H; lra.
+Qed.
+
+Lemma scaled_lt_iff (maximize : bool) vals fails t u :
+  length fails = length vals -> select (map negb fails) vals <> [] ->
+  (t < length vals)%nat -> (u < length vals)%nat ->
+  (nth t (scaled_values maximize vals fails) 0 < nth u (scaled_values maximize vals fails) 0 <->
+   if maximize then raw_behind maximize vals fails u < raw_behind maximize vals fails t
+   else raw_behind maximize vals fails t < raw_behind maximize vals fails u).
+Proof.
+  intros Hl Hne Ht Hu. pose proof (scaled_le_iff maximize vals fails u t Hl Hne Hu Ht) as H.
+  destruct maximize; split; intros L.
+  - apply Qnot_le_lt. intros C. apply (Qlt_not_le _ _ L). apply H. exact C.
+  - apply Qnot_le_lt. intros C. apply (Qlt_not_le _ _ L). apply H. exact C.
+  - apply Qnot_le_lt. intros C. apply (Qlt_not_le _ _ L). apply H. exact C.
+  - apply Qnot_le_lt. intros C. apply (Qlt_not_le _ _ L). apply H. exact C.
+Qed.
+
+Lemma nth_fails_default (fails : list bool) t : (t < length fails)%nat -> nth t fails true = nth t fails false.
+Proof. intros H. apply nth_indep. exact H. Qed.
+
+(* every raw value behind a scaled value lies between the least and the greatest successful raw value *)
+Lemma raw_behind_range (maximize : bool) vals fails t :
+  length fails = length vals -> select (map negb fails) vals <> [] -> (t < length vals)%nat ->
+  lmin (select (map negb fails) vals) <= raw_behind maximize vals fails t <= lmax (select (map negb fails) vals).
+Proof.
+  intros Hl Hne Ht. set (nf := select (map negb fails) vals) in *.
+  assert (Hmm : lmin nf <= lmax nf) by (apply lmin_le, lmax_In; exact Hne).
+  unfold raw_behind. fold nf. destruct (nth t fails false) eqn:Ef.
+  - destruct maximize; split; try apply Qle_refl; exact Hmm.
+  - assert (Hin : In (nth t vals 0) nf).
+    { apply In_select_success. exists t. split; [exact Ht|]. split; [|reflexivity].
+      rewrite nth_fails_default by lia. exact Ef. }
+    split; [apply lmin_le|apply lmax_ge]; exact Hin.
+Qed.
+
+(* (1) the first minimum of the scaled values *)
+Theorem first_min_scaled_is_best_raw (maximize : bool) vals fails :
+  length fails = length vals ->
+  let nf := select (map negb fails) vals in
+  nf <> [] ->
+  let sv := scaled_values maximize vals fails in
+  let lie := if maximize then lmin nf else lmax nf in
+  let bestv := if maximize then lmax nf else lmin nf in
+  let b := qargmin sv in
+  (b < length vals)%nat /\
+  (exists t, (t < length vals)%nat /\ nth t fails true = false /\ nth t vals 0 == bestv) /\
+  (forall t, (t < length vals)%nat -> nth t fails true = false ->
+     if maximize then lie <= nth t vals 0 <= bestv else bestv <= nth t vals 0 <= lie) /\
+  (if nth b fails false then lie else nth b vals 0) == bestv /\
+  (nth b fails false = true ->
+     lie == bestv /\
+     forall t u, (t < length vals)%nat -> (u < length vals)%nat -> nth t fails true = false -> nth u fails true = false ->
+       nth t vals 0 == nth u vals 0) /\
+  ((exists t u, (t < length vals)%nat /\ (u < length vals)%nat /\ nth t fails true = false /\ nth u fails true = false /\
+                ~ nth t vals 0 == nth u vals 0) ->
+     nth b fails true = false /\ nth b vals 0 == bestv /\
+     forall t, (t < b)%nat -> nth t fails true = false ->
+       if maximize then nth t vals 0 < nth b vals 0 else nth b vals 0 < nth t vals 0).
+Proof.
+  intros Hl nf Hne sv lie bestv b.
+  assert (Hsl : length sv = length vals) by (apply scaled_values_length; lia).
+  assert (Hsne : sv <> []).
+  { intros E. rewrite E in Hsl. destruct vals; [|discriminate]. destruct fails; [|discriminate]. apply Hne. reflexivity. }
+  destruct (qargmin_first sv Hsne) as (Hb & Hmin & Hfirst). fold b in Hb, Hmin, Hfirst. rewrite Hsl in Hb, Hmin.
+  assert (Hsucc : forall t, (t < length vals)%nat -> nth t fails true = false -> lmin nf <= nth t vals 0 <= lmax nf).
+  { intros t Ht Hf. assert (Hin : In (nth t vals 0) nf) by (apply In_select_success; exists t; auto).
+    split; [apply lmin_le|apply lmax_ge]; exact Hin. }
+  assert (Hbest : exists t, (t < length vals)%nat /\ nth t fails true = false /\ nth t vals 0 = bestv).
+  { apply In_select_success. unfold bestv. destruct maximize; [apply lmax_In|apply lmin_In]; exact Hne. }
+  assert (Hwb : (if nth b fails false then lie else nth b vals 0) == bestv).
+  { destruct Hbest as (t & Ht & Hf & Hv).
+    pose proof (proj1 (scaled_le_iff maximize vals fails b t Hl Hne Hb Ht) (Hmin t Ht)) as H.
+    pose proof (raw_behind_range maximize vals fails b Hl Hne Hb) as R. fold nf in R.
+    assert (Et : raw_behind maximize vals fails t = bestv).
+    { unfold raw_behind. rewrite <- nth_fails_default by lia. rewrite Hf. exact Hv. }
+    rewrite Et in H. change (if nth b fails false then lie else nth b vals 0) with (raw_behind maximize vals fails b).
+    unfold bestv in *. destruct maximize; lra. }
+  assert (Htie : nth b fails false = true -> lie == bestv) by (intros Ef; rewrite Ef in Hwb; exact Hwb).
+  assert (Hall : lie == bestv -> forall t u, (t < length vals)%nat -> (u < length vals)%nat ->
+            nth t fails true = false -> nth u fails true = false -> nth t vals 0 == nth u vals 0).
+  { intros E t u Ht Hu Hft Hfu. pose proof (Hsucc t Ht Hft) as R1. pose proof (Hsucc u Hu Hfu) as R2.
+    unfold lie, bestv in E. destruct maximize; lra. }
+  split; [exact Hb|]. split; [destruct Hbest as (t & H1 & H2 & H3); exists t; rewrite H3; repeat split; auto; reflexivity|].
+  split; [intros t Ht Hf; pose proof (Hsucc t Ht Hf) as R; unfold lie, bestv; destruct maximize; exact R|].
+  split; [exact Hwb|]. split; [intros Ef; split; [apply Htie; exact Ef|apply Hall, Htie; exact Ef]|].
+  intros (t & u & Ht & Hu & Hft & Hfu & Hd).
+  assert (Ef : nth b fails false = false).
+  { destruct (nth b fails false) eqn:Ef; [|reflexivity]. exfalso. apply Hd. apply (Hall (Htie eq_refl)); assumption. }
+  split; [rewrite nth_fails_default by lia; exact Ef|]. rewrite Ef in Hwb. split; [exact Hwb|].
+  intros t' Ht' Hf'.
+  pose proof (proj1 (scaled_lt_iff maximize vals fails b t' Hl Hne Hb ltac:(lia)) (Hfirst t' Ht')) as H.
+  unfold raw_behind in H. rewrite Ef in H. rewrite <- (nth_fails_default fails t') in H by lia. rewrite Hf' in H. exact H.
+Qed.
+
+(* (2) any index b whose scaled value is the first minimum over a set P of observations (a cluster) *)
+Theorem set_min_scaled_is_best_raw (maximize : bool) vals fails (P : nat -> Prop) (b : nat) :
+  length fails = length vals ->
+  let nf := select (map negb fails) vals in
+  nf <> [] ->
+  let sv := scaled_values maximize vals fails in
+  let lie := if maximize then lmin nf else lmax nf in
+  (b < length vals)%nat ->
+  (forall t, (t < length vals)%nat -> P t -> nth b sv 0 <= nth t sv 0) ->
+  (forall t, (t < b)%nat -> P t -> nth b sv 0 < nth t sv 0) ->
+  (nth b fails true = false ->
+     (forall t, (t < length vals)%nat -> P t -> nth t fails true = false ->
+        if maximize then nth t vals 0 <= nth b vals 0 else nth b vals 0 <= nth t vals 0) /\
+     (forall t, (t < b)%nat -> P t -> nth t fails true = false ->
+        if maximize then nth t vals 0 < nth b vals 0 else nth b vals 0 < nth t vals 0) /\
+     (forall t, (t < b)%nat -> P t -> nth t fails false = true ->
+        if maximize then lie < nth b vals 0 else nth b vals 0 < lie)) /\
+  (nth b fails false = true ->
+     (forall t, (t < length vals)%nat -> P t -> nth t fails true = false -> nth t vals 0 == lie) /\
+     (forall t, (t < b)%nat -> ~ P t)).
+Proof.
+  intros Hl nf Hne sv lie Hb Hmin Hfirst.
+  assert (Hs : forall t, (t < length vals)%nat -> nth t fails true = false -> raw_behind maximize vals fails t = nth t vals 0).
+  { intros t Ht Hf. unfold raw_behind. rewrite <- nth_fails_default by lia. rewrite Hf. reflexivity. }
+  assert (Hf : forall t, nth t fails false = true -> raw_behind maximize vals fails t = lie).
+  { intros t Ef. unfold raw_behind. rewrite Ef. reflexivity. }
+  split.
+  - intros Eb. split; [|split].
+    + intros t Ht HP Et. pose proof (proj1 (scaled_le_iff maximize vals fails b t Hl Hne Hb Ht) (Hmin t Ht HP)) as H.
+      rewrite (Hs b Hb Eb), (Hs t Ht Et) in H. exact H.
+    + intros t Ht HP Et. pose proof (proj1 (scaled_lt_iff maximize vals fails b t Hl Hne Hb ltac:(lia)) (Hfirst t Ht HP)) as H.
+      rewrite (Hs b Hb Eb), (Hs t ltac:(lia) Et) in H. exact H.
+    + intros t Ht HP Et. pose proof (proj1 (scaled_lt_iff maximize vals fails b t Hl Hne Hb ltac:(lia)) (Hfirst t Ht HP)) as H.
+      rewrite (Hs b Hb Eb), (Hf t Et) in H. exact H.
+  - intros Eb. split.
+    + intros t Ht HP Et. pose proof (proj1 (scaled_le_iff maximize vals fails b t Hl Hne Hb Ht) (Hmin t Ht HP)) as H.
+      rewrite (Hf b Eb), (Hs t Ht Et) in H.
+      pose proof (raw_behind_range maximize vals fails t Hl Hne Ht) as R. rewrite (Hs t Ht Et) in R. fold nf in R.
+      unfold lie in *. destruct maximize; lra.
+    + intros t Ht HP. pose proof (proj1 (scaled_lt_iff maximize vals fails b t Hl Hne Hb ltac:(lia)) (Hfirst t Ht HP)) as H.
+      rewrite (Hf b Eb) in H.
+      pose proof (raw_behind_range maximize vals fails t Hl Hne ltac:(lia)) as R. fold nf in R.
+      unfold lie in *. destruct maximize; lra.
+Qed.
+
+(* the whole endpoint in terms of RAW values *)
+Theorem view_best_raw cs tgt points vals fails maximize k ohs :
+  all_some (map (to_one_hot cs) points) = Some ohs ->
+  length vals = length points -> length fails = length points -> (2 <= k < length points)%nat ->
+  let nf := select (map negb fails) vals in
+  nf <> [] ->
+  let sv := scaled_values maximize vals fails in
+  let spts := map (search_point cs tgt) ohs in
+  let lie := if maximize then lmin nf else lmax nf in
+  exists centres part best,
+    k_center spts (qargmin sv) k = Some (centres, part) /\
+    view cs tgt points vals fails maximize k = Some best /\
+    length best = k /\ NoDup best /\ (forall i, In i best -> (i < length points)%nat) /\
+    (let b0 := hd O best in
+     (nth b0 fails true = false ->
+        forall t, (t < length points)%nat -> nth t fails true = false ->
+          if maximize then nth t vals 0 <= nth b0 vals 0 else nth b0 vals 0 <= nth t vals 0) /\
+     (nth b0 fails false = true ->
+        forall t u, (t < length points)%nat -> (u < length points)%nat -> nth t fails true = false -> nth u fails true = false ->
+          nth t vals 0 == nth u vals 0) /\
+     ((exists t u, (t < length points)%nat /\ (u < length points)%nat /\ nth t fails true = false /\ nth u fails true = false /\
+                   ~ nth t vals 0 == nth u vals 0) ->
+        nth b0 fails true = false /\
+        forall t, (t < b0)%nat -> nth t fails true = false ->
+          if maximize then nth t vals 0 < nth b0 vals 0 else nth b0 vals 0 < nth t vals 0)) /\
+    forall c, (c < k)%nat ->
+      let b := nth c best O in
+      nth b part O = c /\
+      (nth b fails true = false ->
+         (forall t, (t < length points)%nat -> nth t part O = c -> nth t fails true = false ->
+            if maximize then nth t vals 0 <= nth b vals 0 else nth b vals 0 <= nth t vals 0) /\
+         (forall t, (t < b)%nat -> nth t part O = c -> nth t fails true = false ->
+            if maximize then nth t vals 0 < nth b vals 0 else nth b vals 0 < nth t vals 0) /\
+         (forall t, (t < b)%nat -> nth t part O = c -> nth t fails false = true ->
+            if maximize then lie < nth b vals 0 else nth b vals 0 < lie)) /\
+      (nth b fails false = true ->
+         (forall t, (t < length points)%nat -> nth t part O = c -> nth t fails true = false -> nth t vals 0 == lie) /\
+         (forall t, (t < b)%nat -> nth t part O <> c)).
+Proof.
+  intros Hoh Hlv Hlf Hk nf Hne sv spts lie.
+  destruct (view_spec cs tgt points vals fails maximize k ohs Hoh Hlv Hlf Hk)
+    as (centres & part & best & H1 & H2 & H3 & H4 & H5 & H6 & H7).
+  fold sv spts in H1, H6, H7.
+  assert (Hl : length fails = length vals) by lia.
+  exists centres, part, best. split; [exact H1|]. split; [exact H2|]. split; [exact H3|]. split; [exact H4|]. split; [exact H5|].
+  split.
+  - cbv zeta. rewrite H6.
+    destruct (first_min_scaled_is_best_raw maximize vals fails Hl Hne) as (Hb & _ & Hrange & Hwb & Htie & Hdiff).
+    fold nf sv lie in Hb, Hrange, Hwb, Htie, Hdiff. rewrite Hlv in *. split; [|split].
+    + intros Eb t Ht Et. rewrite <- (nth_fails_default fails (qargmin sv)) in Hwb by lia. rewrite Eb in Hwb.
+      pose proof (Hrange t Ht Et) as R. destruct maximize; lra.
+    + intros Eb. apply Htie. exact Eb.
+    + intros Hd. destruct (Hdiff Hd) as (A & _ & B). split; assumption.
+  - intros c Hc. cbv zeta. destruct (H7 c Hc) as (P1 & P2 & P3). split; [exact P1|].
+    assert (Hb : (nth c best O < length vals)%nat) by (rewrite Hlv; apply H5, nth_In; lia).
+    pose proof (set_min_scaled_is_best_raw maximize vals fails (fun t => nth t part O = c) (nth c best O) Hl Hne Hb) as S.
+    fold nf sv lie in S. rewrite Hlv in S. exact (S P2 P3).
+Qed.
